@@ -72,16 +72,21 @@ def handle (j : Json) : IO Unit := do
   let said := eps.map (fun e => ({ name := e.idx, status := e.resp.status, headers := e.resp.headers, body := e.resp.body } : Said))
   let ollaErr := isOllaError cStatus (jstr (jget cl "content_type")) cHdrs cBody (eps.map (·.resp.body))
   let got : Option Got := if ollaErr || cErr == "eof-before-status" then none else some { status := cStatus, headers := cHdrs, body := cBody }
-  let spec := singleAttempt said order got
+  -- interim (1xx) responses that reached the client are bytes of an attempt too: they may only come from the attempt
+  -- whose answer the client holds (the last one dispatched), never from one that was abandoned
+  let interims := jstrList (jget cl "interims")
+  let interimOk := interimsFromLastAttempt order (interims.map (idxOf eps))
+  let spec := singleAttempt said order got && interimOk
   let kinds := String.intercalate "," (eps.map (·.kind))
   let branch := match res with
     | .served _ => if (selectedList tr).length > 1 then "served-after-failover" else "served-first"
     | .failed _ => if mView.isSome then "failed-after-start" else "failed-before-start"
     | .exhausted => "exhausted" | .selectFailed => "select-failed" | .noEndpoints => "no-endpoints"
   let sig := if spec then "" else
-    if order.length > 1 && got.isSome then "response-mixes-attempts-or-redispatch-after-delivery" else "response-not-from-one-attempt"
+    if !interimOk then "interim-response-of-an-abandoned-attempt-delivered"
+    else if order.length > 1 && got.isSome then "response-mixes-attempts-or-redispatch-after-delivery" else "response-not-from-one-attempt"
   emit case agree spec branch sig
-    (if spec && agree then "" else s!"kinds {kinds}: contacted {order} (model {mOrder}), client status {cStatus} err '{cErr}' body {cBody.length} bytes, offline {implOffline} (model {mOffline})")
+    (if spec && agree then "" else s!"kinds {kinds}: contacted {order} (model {mOrder}), client status {cStatus} err '{cErr}' body {cBody.length} bytes, interim responses from {interims}, offline {implOffline} (model {mOffline})")
     (Json.mkObj [("order", toJson mOrder), ("offline", toJson mOffline), ("result", toJson (reprStr res))])
 
 def main : IO Unit := do forLines (← IO.getStdin) handle
